@@ -1,6 +1,8 @@
 package rules
 
 import (
+	"fmt"
+	"go/token"
 	"strings"
 
 	"verifchk/internal/an"
@@ -27,6 +29,41 @@ func runC09(c *an.Ctx) {
 	// shared with C08: every awaited call is collected before AwaitAll returns, so that all failures of one moment and
 	// weight are reported together and no hook is still running when the transition is answered
 	c.As(map[string]string{"R08f": "R09f"}, func() { r08f(c) })
+	r09g(c)
+}
+
+// R09g: a hook task counts as failed whenever it did not exit with code 0 - also when it was terminated by a signal
+// (reported with a negative exit code). The exit code of a terminated hook task is therefore only ever compared for
+// (in)equality with zero.
+func r09g(c *an.Ctx) {
+	c.Rule("R09g", "runTasksAsHooks: the exit code of a terminated hook task is only tested for (in)equality with 0", 1)
+	fn := c.MustFn("core/environment", "Environment.runTasksAsHooks")
+	if fn == nil {
+		return
+	}
+	n := 0
+	for _, f := range an.WithAnon(fn) {
+		an.Instrs(f, func(in ssa.Instruction) {
+			bo, ok := in.(*ssa.BinOp)
+			if !ok {
+				return
+			}
+			for _, pair := range [][2]ssa.Value{{bo.X, bo.Y}, {bo.Y, bo.X}} {
+				if !isFieldNamed(pair[0], "ExitCode") {
+					continue
+				}
+				n++
+				c.Subject()
+				z, isC := an.ConstInt(pair[1])
+				good := (bo.Op == token.EQL || bo.Op == token.NEQ) && isC && z == 0
+				c.Ob(fmt.Sprintf("(*core/environment.Environment).runTasksAsHooks|exit-code-test#%d", n), bo.Pos(), good,
+					"the hook task's exit code is tested with %s against %v instead of for (in)equality with 0: a hook killed by a signal (negative exit code) or exiting with another code passes as successful, and a critical hook failure no longer cancels the transition", bo.Op, pair[1])
+			}
+		})
+	}
+	if n == 0 {
+		c.Lost("a test of the terminated hook task's ExitCode in Environment.runTasksAsHooks")
+	}
 }
 
 // envCallbacks resolves the four FSM callback closures of the environment by their constant map
@@ -187,7 +224,28 @@ func r09a(c *an.Ctx) {
 				reported = true
 			}
 		}
-		c.Ob(key+"|error-reported", f.Pos(), reported, "a hook error at %s must be reported through e.Cancel(err)", k)
+		// ... for each of the two groups, on every path: with that group's error set, no return is reached without a
+		// Cancel that carries it
+		for gi, grp := range []ssa.CallInstruction{neg[0], pos[0]} {
+			res, isCall := grp.(*ssa.Call)
+			if !isCall {
+				continue
+			}
+			cancelIn := map[*ssa.BasicBlock]bool{}
+			for _, cn := range an.CallsNamed(f, fsmCancel) {
+				if len(cn.Common().Args) >= 2 && an.DerivesFrom(cn.Common().Args[len(cn.Common().Args)-1], res) {
+					cancelIn[cn.Block()] = true
+				}
+			}
+			fl := an.FlowFromFacts(res.Block(), func(b *ssa.BasicBlock, succ int) bool { return cancelIn[b] }, res)
+			for _, r := range fl.ReachedReturns() {
+				if !cancelIn[r.Block()] {
+					reported = false
+					_ = gi
+				}
+			}
+		}
+		c.Ob(key+"|error-reported", f.Pos(), reported, "a hook error at %s (of either group) must be reported through e.Cancel(err) on every path", k)
 	}
 }
 
